@@ -14,6 +14,10 @@ import os
 import time
 
 RUNNERS = ["ptrace", "unshare", "cbefore", "cafter"]
+# signal-number classes every runner gets in the quick tier on top of the table's special ones: an ordinary
+# signal, the last classic one's neighbours, 32/33 (reserved by glibc, reachable by a raw kill), SIGRTMIN,
+# SIGRTMIN+1, a middle real-time signal, the last two
+RT_CLASSES = (15, 30, 32, 33, 34, 35, 50, 63, 64)
 REP_EXITS = [0, 1, 2, 3, 42, 77, 99, 100, 126, 127, 128, 137, 139, 200, 254, 255]
 
 
@@ -29,8 +33,9 @@ def select(ctx, cases):
     ess, rest = [], []
     for c in sorted(cases, key=lambda c: json.dumps(c, sort_keys=True)):
         k, n, none = c["kind"], c["n"], c["child"] == "none"
-        boundary = k in ("fault", "sys", "badexec") or (k == "ext" and n in (9, 15, 5)) \
-            or (k == "raise" and n in (5, 9, 24, 25, 31)) or (k == "exit" and n in (0, 1, 255))
+        boundary = k in ("fault", "sys", "badexec") or (k == "ext" and n in (9, 15, 5, 34, 64)) \
+            or (k == "raise" and n in (5, 9, 24, 25, 31)) or (k == "exit" and n in (0, 1, 255)) \
+            or (k == "raise" and n in RT_CLASSES)
         if c.get("cancel", "none") != "none":
             # the caller cancels around the program's end: deterministic (sync-after container) and racing
             if not ctx.quick():
